@@ -221,8 +221,6 @@ def evaluate(case):
                 feats.add("docref")
             if s["status"] == "ok":
                 classes.add("via:" + str(s["via"]))
-            if s.get("multi"):
-                classes.add("id-multi-allowed")
         elif s.get("inherited"):
             classes.add("snref-inherited")
             feats.add("inherited-snref")
@@ -326,10 +324,10 @@ def evaluate(case):
                 return [fail("retarget-raises", f"retarget_snrefs(db, {tgt}) raised {type(e).__name__}: {e}"[:500],
                              f"retarget-raises:{type(e).__name__}")], classes, nontrivial
             for i, s in enumerate(m.sites):
-                if s["status"] != "ok" or s["path"][0] == "import":
+                if s["status"] != "ok" or i not in exp:
                     continue
-                want = exp.get(i, s["allowed"])
-                if i in exp and want != s["allowed"]:
+                want = exp[i]
+                if want != s["allowed"]:
                     classes.add("retarget-rebinds")
                     if (m.depth_above(tgt, s["layer"]) or 0) >= 2:
                         classes.add("retarget-rebinds-grandparent")
@@ -364,7 +362,7 @@ def run_shard(spec, seed, tier):
     _, idx = spec
     # every third shard generates negative sets only, one positive only, the rest mixed
     mode = {0: True, 1: False}.get(idx % 4, None)
-    n = 170 if tier == "quick" else 2500
+    n = 220 if tier == "quick" else 2000
 
     strat = st.randoms(use_true_random=False).map(lambda r: M.gen_case(r, negative=mode, big=(tier != "quick")))
 
